@@ -24,12 +24,14 @@ type storeProfile struct {
 	pBump                int // % chance of a SetVersion bump of the block trie inside a round
 	pSaveFault           int // % chance of a SaveChanges fault-path op before the save
 	pSync                int // % chance that a round starts with a MergeDB from a donor store
+	pSyncBack            int // % chance that a round, after deleting/overwriting earlier-round content, moves by MergeDB to a donor built off the state it started from
+	pSnap                int // % chance that a transaction's change set is taken (GetChanges), the transaction writes on, and the earlier set is merged
 }
 
 var (
-	profC03 = storeProfile{name: "c03", minRounds: 1, maxRounds: 3, maxTxns: 4, pDel: 35, pPrune: 10, pCrashSave: 5, pRecreate: 15, pObserve: 60, pFork: 5, pBump: 8, pSync: 6, pSaveFault: 3}
-	profC04 = storeProfile{name: "c04", minRounds: 2, maxRounds: 5, maxTxns: 3, pDel: 35, pPrune: 15, pCrashSave: 40, pRecreate: 20, pObserve: 25, pFork: 8, pBump: 25, pSync: 20, pSaveFault: 25}
-	profC05 = storeProfile{name: "c05", minRounds: 3, maxRounds: 6, maxTxns: 3, pDel: 45, pPrune: 60, pCrashSave: 10, pRecreate: 50, pObserve: 25, pFork: 25, pBump: 8, pSync: 6, pSaveFault: 3}
+	profC03 = storeProfile{name: "c03", minRounds: 1, maxRounds: 3, maxTxns: 4, pDel: 35, pPrune: 10, pCrashSave: 5, pRecreate: 15, pObserve: 60, pFork: 5, pBump: 8, pSync: 6, pSaveFault: 3, pSyncBack: 4, pSnap: 15}
+	profC04 = storeProfile{name: "c04", minRounds: 2, maxRounds: 5, maxTxns: 3, pDel: 35, pPrune: 15, pCrashSave: 40, pRecreate: 20, pObserve: 25, pFork: 8, pBump: 25, pSync: 20, pSaveFault: 25, pSyncBack: 8, pSnap: 5}
+	profC05 = storeProfile{name: "c05", minRounds: 3, maxRounds: 6, maxTxns: 3, pDel: 45, pPrune: 60, pCrashSave: 10, pRecreate: 50, pObserve: 25, pFork: 25, pBump: 8, pSync: 6, pSaveFault: 3, pSyncBack: 20, pSnap: 4}
 )
 
 // genSaveFail switches the generation of `save-fail` ops on (see round()); on since fix 2aff805.
@@ -311,6 +313,115 @@ func (g *storeGen) versionShape(c *gTrie) {
 	}
 }
 
+// snapMerge: the change set of c is taken now (`snap`), c writes on, then the EARLIER set is merged into the parent
+// through the exported MergeChanges (`mergesnap`): the parent must get c's state at snapshot time. c stays open.
+func (g *storeGen) snapMerge(c *gTrie, parentMoves bool) {
+	p := g.tries[c.parent]
+	at := map[string]string{}
+	for k, v := range c.content {
+		at[k] = v
+	}
+	g.emit("snap %d", c.id)
+	g.someOps(c, 4)
+	g.maybeObserve(c.id)
+	if parentMoves {
+		g.someOps(p, 2) // the change set is stale now: rejected (a stale trie is not operated on any more)
+	}
+	g.emit("mergesnap %d", c.id)
+	if !c.stale {
+		if !storeSameContent(p.content, at) {
+			g.markStale(p.id)
+		}
+		p.content = at
+		c.stale = true
+	}
+	g.maybeObserve(p.id)
+}
+
+// syncBack: content stored by an earlier round is deleted / overwritten in this round (on the block trie or in a
+// transaction that is merged), then - in the same round - the trie moves by MergeDB to the root of a donor that was built
+// off the state the round started from (that state plus a few inserts): the donor's store holds the very nodes this round
+// reported as replaced, and they are live again. Directly on the block trie, or inside a transaction that is then merged.
+func (g *storeGen) syncBack() {
+	blk := g.tries[0]
+	if len(g.savedMap) == 0 || len(g.tries) != 1 {
+		return
+	}
+	kill := func(t *gTrie) {
+		for i, n := 0, 1+g.r.Intn(3); i < n; i++ {
+			var ks []string
+			for _, k := range g.keys {
+				if _, ok := g.savedMap[k]; ok {
+					if _, ok := t.content[k]; ok {
+						ks = append(ks, k)
+					}
+				}
+			}
+			if len(ks) == 0 {
+				return
+			}
+			k := ks[g.r.Intn(len(ks))]
+			if g.r.Intn(2) == 0 {
+				g.emit("del %d %s", t.id, ptok(k))
+				delete(t.content, k)
+			} else {
+				v := genValue(g.r)
+				g.emit("ins %d %s %s", t.id, ptok(k), v)
+				t.content[k] = v
+			}
+			g.markStale(t.id)
+		}
+	}
+	target := blk
+	switch g.r.Intn(3) {
+	case 0: // the block trie kills and syncs
+		kill(blk)
+	case 1: // a transaction kills and is merged, the block trie syncs
+		c := g.open(0)
+		kill(c)
+		g.merge(c)
+	default: // the block trie (or the transaction itself) kills, a transaction syncs and is merged
+		if g.r.Intn(2) == 0 {
+			kill(blk)
+		}
+		target = g.open(0)
+		if g.r.Intn(2) == 0 {
+			kill(target)
+		}
+	}
+	content := map[string]string{}
+	for k, v := range g.savedMap {
+		content[k] = v
+	}
+	kvs := "-"
+	w := g.unusedPast()
+	if w >= 0 && g.r.Intn(100) < 60 {
+		var l []string
+		for i, n := 0, 1+g.r.Intn(3); i < n; i++ {
+			k := g.keys[g.r.Intn(len(g.keys))]
+			v := g.value(k)
+			content[k] = v
+			l = append(l, ptok(k)+"="+v)
+		}
+		g.usedVersions[w] = true
+		kvs = strings.Join(l, ",")
+	} else {
+		w = g.version
+	}
+	if target.id == 0 {
+		g.emit("syncfrom %d %s base", w, kvs)
+	} else {
+		g.emit("syncinto %d %d %s base", target.id, w, kvs)
+	}
+	target.content = content
+	g.markStale(target.id)
+	g.maybeObserve(target.id)
+	if target.id != 0 {
+		g.merge(target)
+		g.maybeObserve(0)
+	}
+}
+
 func (g *storeGen) txn() {
 	blk := g.tries[0]
 	switch x := g.r.Intn(100); {
@@ -334,6 +445,19 @@ func (g *storeGen) txn() {
 		g.versionShape(c)
 		g.maybeObserve(c.id)
 		g.maybeObserve(0)
+		if g.r.Intn(100) < g.prof.pSnap {
+			g.snapMerge(c, false)
+			if g.r.Intn(2) == 0 {
+				g.someOps(c, 2)
+			}
+			if g.r.Intn(100) < 60 {
+				g.mergeX(c, false) // rejected unless the child is back at the parent's state
+			}
+			if _, open := g.tries[c.id]; open {
+				g.discard(c)
+			}
+			return
+		}
 		switch y := g.r.Intn(100); {
 		case y < 15:
 			// the child keeps working after its merge and is merged again (rejected: it started from the old root)
@@ -380,7 +504,11 @@ func (g *storeGen) txn() {
 	default: // the parent moves on while a child is open
 		c := g.open(0)
 		g.someOps(c, 3)
-		g.someOps(blk, 2)
+		if g.r.Intn(100) < g.prof.pSnap {
+			g.snapMerge(c, true)
+		} else {
+			g.someOps(blk, 2)
+		}
 		if g.r.Intn(100) < 70 {
 			g.merge(c)
 		}
@@ -483,6 +611,9 @@ func (g *storeGen) round(fork bool) {
 			g.usedVersions[g.version] = true
 			g.emit("ver 0 %d", g.version)
 		}
+	}
+	if g.r.Intn(100) < g.prof.pSyncBack {
+		g.syncBack()
 	}
 	g.maybeObserve(0)
 	if g.r.Intn(100) < g.prof.pSaveFault {
